@@ -21,7 +21,8 @@ import c08_validate as val
 
 THEOREMS = ['C08_volume_str_counts', 'C08_write_wf', 'C08_prune_preserves_wf',
             'C08_prune_total', 'C08_convert_tail_wf', 'C08_convert_tail_wf_R',
-            'C08_print_parse_roundtrip',
+            'C08_print_parse_roundtrip', 'C08_written_text_wf',
+            'C08_numbers_given', 'C08_numbers_finite', 'C08_words_okb_sound',
             'C08_remove_empty_volumes_ok', 'C08_geomcomp_partition',
             'C08_bc_defined',
             'C08_composition_missing_refuted', 'C08_wf_fileb_ok',
@@ -252,6 +253,21 @@ def sweep_one(res, deck_text, args, conv, cap, origin):
     return not problems
 
 
+def make_case(conv, cap, args, verdict):
+    '''(Coq term of one tie case, open-finding flag) or None.'''
+    if cap is None or cap.mats is None:
+        return None
+    term = cap_mod.coq_input(cap, args)
+    obs = cap_mod.coq_observed(cap_mod.observed(conv))
+    valid = cap_mod.cbool(verdict is True or conv.text is None)
+    card_keys = {k for k, _, _ in cap.mats}
+    open_flag = any((c[2] not in card_keys and c[2] != 0) or c[7] < 0
+                    for c in cap.cells) \
+        or any(v != v or v in (float('inf'), float('-inf'))
+               for surf in cap.surfs for v in surf[2])
+    return f'({term},\n {obs}, {valid})', open_flag
+
+
 def run(res, tier, seed, proofs_ok):
     rng = random.Random(seed)
     for text, ints in cap_mod.PACK_SAMPLES.items():
@@ -270,16 +286,20 @@ def run(res, tier, seed, proofs_ok):
                 'file was written; distinct by (deck text, options)')
 
     # ---- 1. witnesses of the open findings and corpus of the repaired ones ----
+    cases, meta = [], []
     for cls, (deck_text, args) in WITNESSES.items():
         conv, cap = cap_mod.convert(deck_text, args)
         verdict = sweep_one(res, deck_text, args, conv, cap,
                             f'witness:{cls}')
         res.count(f'witness:{cls}:' + ('still-fails' if verdict is False
                                        else 'passes'))
+        made = make_case(conv, cap, args, verdict)
+        if made:
+            cases.append(made[0])
+            meta.append((deck_text, args, conv.exc, verdict, made[1]))
 
     # ---- 2 + 3. generated decks: sweep and tie on the same runs ----
     n_decks = 170 if tier == 'quick' else 1500
-    cases, meta = [], []
     for i in range(n_decks):
         dk, tags = gen.gen_deck(rng)
         deck_text = gen.render(dk)
@@ -303,25 +323,21 @@ def run(res, tier, seed, proofs_ok):
             verdict = sweep_one(res, deck_text, args, conv, cap, 'generated')
             if verdict is not None:
                 res.count('file:' + ('valid' if verdict else 'invalid'))
-            if cap is None or cap.mats is None:
-                continue
             try:
-                term = cap_mod.coq_input(cap, args)
-                obs = cap_mod.coq_observed(cap_mod.observed(conv))
+                made = make_case(conv, cap, args, verdict)
             except (ValueError, KeyError) as exc:
                 res.count('tie-skipped:' + type(exc).__name__)
                 continue
-            valid = cap_mod.cbool(verdict is True or conv.text is None)
-            cases.append(f'({term},\n {obs}, {valid})')
-            card_keys = {k for k, _, _ in cap.mats}
-            open_cells = any((c[2] not in card_keys and c[2] != 0) or c[7] < 0
-                             for c in cap.cells)
-            meta.append((deck_text, args, conv.exc, verdict, open_cells))
+            if not made:
+                continue
+            cases.append(made[0])
+            meta.append((deck_text, args, conv.exc, verdict, made[1]))
             if len(res.samples) < 3 and conv.text is not None and i % 7 == 0:
                 res.sample({'deck': deck_text, 'args': args,
                             'file_bytes': len(conv.text)})
     bad, errs = run_multi('c08_tie', ['check_file', 'check_verdict',
-                                      'outside_guard', 'stage0_ok', 'check_reader'],
+                                      'outside_guard', 'stage0_ok', 'check_reader',
+                           'text_ok'],
                           cases)
     n_in = len(bad['outside_guard']) if not errs else 0   # indices where outside_guard = false
     res.extra['guard'] = {'cases': len(cases),
@@ -357,10 +373,27 @@ def run(res, tier, seed, proofs_ok):
                       {'input': {'deck': deck_text, 'args': args},
                        'theorem_or_correspondence': 'tie:stage0'},
                       found_input=False)
+    res.obligation(f'tie:text ({len(cases)} snapshots: words_ok (hypothesis of '
+                   'C08_written_text_wf) and finiteb on every numeric string of '
+                   'the tables (hypothesis of C08_numbers_finite) hold)',
+                   not [i for i in bad['text_ok'] if not meta[i][4]]
+                   and not errs,
+                   f'{len(bad["text_ok"])} snapshots outside (open findings '
+                   'included)')
+    for idx in [i for i in bad['text_ok'] if not meta[i][4]][:10]:
+        deck_text, args, exc, verdict, _open = meta[idx]
+        res.violation('correspondence',
+                      'the tables construct_volume_t4 returned contain a string '
+                      'that is not a word, or a numeric string that is not a '
+                      f'finite number [options {" ".join(args) or "default"}]',
+                      {'input': {'deck': deck_text, 'args': args},
+                       'theorem_or_correspondence': 'tie:text'},
+                      found_input=False)
     res.obligation(f'tie:reader ({len(cases)} runs: the Coq reader parse_t4 on the '
                    'bytes of the real file accepts exactly the files the '
                    'validator accepts, print_t4 of what it read gives the same '
-                   'bytes, wf_fileb of what it read = validator verdict)',
+                   'bytes, wf_fileb and finiteb of every numeric field of what it '
+                   'read = validator verdict)',
                    not bad['check_reader'] and not errs,
                    f'{len(bad["check_reader"])} disagreements')
     for idx in bad['check_reader'][:10]:
